@@ -4,6 +4,7 @@ import (
 	"bytes"
 	"encoding/json"
 	"fmt"
+	"strings"
 
 	ike "github.com/free5gc/ike"
 	"github.com/free5gc/ike/message"
@@ -125,6 +126,25 @@ func runC20(c *engine.Ctx) {
 			}
 		}
 	}
+	// the structured part of the sweeps (nested lists in unusual orders and shapes) through the encode-side clauses
+	si := 0
+	univ.Sweeps(c.Thorough(), func(name string, m ref.Msg, fits bool) {
+		keep := false
+		for _, pre := range []string{"SA.propnums", "SA.type×id", "SA.spilen=", "TSi.v", "TSr.v", "TSr.count", "order.exch", "AKA.subset", "D.count", "CP.vallen"} {
+			if strings.HasPrefix(name, pre) {
+				keep = true
+			}
+		}
+		if !keep || !fits {
+			return
+		}
+		si++
+		if !c.Mine() || (strings.HasPrefix(name, "order.exch") && si%6 != 0 && !c.Thorough()) {
+			return
+		}
+		mm := m
+		c20Encode(c, c20Case{K: "encode", Name: name, M: &mm})
+	})
 	// encode / protect / unprotect side over the universe
 	univ.Messages(depthFor(c), func(name string, m ref.Msg) {
 		if !c.Mine() {
@@ -175,6 +195,18 @@ func c20Decode(c *engine.Ctx, cs c20Case, in []byte) {
 	if r, ok := engine.Overlaps(regs, buf); ok {
 		c.Violate("decoded-field-aliases-input/"+fieldOf(r.Path), fmt.Sprintf("%s: after Decode the field %s (len %d, cap %d) shares memory with the input buffer", cs.Name, r.Path, r.Len, r.Cap), cs)
 		return
+	}
+	// two decodings of the same octets own their data separately: no heap object (payload, nested element, byte
+	// slice, map) is reachable from both — the first message may be edited freely by its holder
+	{
+		b2 := append([]byte(nil), in...)
+		m2 := new(message.IKEMessage)
+		if err2 := m2.Decode(b2); err2 == nil {
+			if x, y, ok := engine.Shared(engine.Objects(&m.Payloads), engine.Objects(&m2.Payloads)); ok {
+				c.Violate("decoded-messages-share-memory/"+fieldOf(x.Path), fmt.Sprintf("%s: two decodings of the same octets both reach the object at %s / %s (%d octets): editing one decoded message changes the other", cs.Name, x.Path, y.Path, x.Cap), cs)
+				return
+			}
+		}
 	}
 	d0 := dumpMsg(m)
 	// what the decoded message encodes to must not depend on the receive buffer either (bookkeeping kept in the
@@ -484,6 +516,22 @@ func c20Protect(c *engine.Ctx, cs c20Case) {
 	if len(lm.Payloads) != 1 || lm.Payloads[0].Type() != message.TypeSK {
 		c.Violate("protect-payload-list", fmt.Sprintf("%s: after EncodeEncrypt the list has %d payloads", cs.Name, len(lm.Payloads)), cs)
 		return
+	}
+	// the datagram handed to the caller is the caller's: overwriting it (a send buffer that is reused) changes neither
+	// the message's Encrypted payload nor what the message encodes to (a retransmission re-encodes the message)
+	{
+		sent := append([]byte(nil), b...)
+		d1 := engine.Dump(&lm.Payloads)
+		for i := range b {
+			b[i] = ^b[i]
+		}
+		var again []byte
+		var aerr error
+		engine.Catch(func() { again, aerr = lm.Encode() })
+		if engine.Dump(&lm.Payloads) != d1 || aerr != nil || !bytes.Equal(again, sent) {
+			c.Violate("protected-message-shares-memory-with-returned-datagram", fmt.Sprintf("%s: after the caller overwrote the datagram returned by EncodeEncrypt, the message's Encrypted payload changed or the message no longer encodes to what was sent (err %v)", cs.Name, aerr), cs)
+			return
+		}
 	}
 	h1 := *lm.IKEHeader
 	h0.NextPayload, h0.PayloadBytes, h1.NextPayload, h1.PayloadBytes = 0, nil, 0, nil
